@@ -64,6 +64,7 @@ func ZZ_Step_ReadAt() {
 		}
 		zzAssert(served != "", "C04.data-not-from-RW-replica")
 		if served != "" {
+			zzAssert(zzmodel.Replicas[served].ReadsOK > 0, "C04.read-reported-ok-but-the-serving-replica-failed-it")
 			zzAssert(e.modeOf(served) == types.RW, "C04.serving-replica-not-RW-after")
 		}
 	} else {
@@ -76,7 +77,7 @@ func ZZ_Step_ReadAt() {
 	// a reader that failed is detached on return
 	for _, a := range rwAtEntry {
 		m := zzmodel.Replicas[a]
-		if m.Reads > 0 && !(err == nil && buf[0] == a[7]) {
+		if m.Reads > 0 && !(err == nil && buf[0] == a[7] && m.ReadsOK > 0) {
 			zzReach("C04.failover")
 			zzAssert(!e.attached(a), "C04.failed-reader-still-attached")
 		}
@@ -195,6 +196,10 @@ func ZZ_Step_RemoveReplica() {
 		zzReach("remove.attached")
 		_, still := e.c.backend.backends[addr]
 		zzAssert(!still, "C18.removed-replica-still-has-backend")
+		// its registration goes with it: a replica that left has to register again (with
+		// its then-current revision count) to take part in a later bootstrap
+		_, reg := e.c.RegisteredReplicas[zzHostOf(addr)]
+		zzAssert(!reg, "C09.removed-replica-still-registered")
 	}
 	e.zzCheckInvC("remove.post", false, true)
 	zzSettle()
@@ -260,6 +265,8 @@ func ZZ_Step_MonitorEvent() {
 	zzAssert(!e.attached(addr), "C05.replica-with-failed-ping-still-attached")
 	_, still := e.c.backend.backends[addr]
 	zzAssert(!still, "C05.replica-with-failed-ping-still-has-backend")
+	_, reg := e.c.RegisteredReplicas[zzHostOf(addr)]
+	zzAssert(!reg, "C09.detached-replica-still-registered")
 	e.zzCheckInvC("monitor.settled", true, true)
 }
 
@@ -305,4 +312,14 @@ func ZZ_Step_Revert() {
 	e.zzCheckInvC("revert.post", false, err == nil)
 	zzSettle()
 	e.zzCheckInvC("revert.settled", true, err == nil)
+}
+
+
+func zzHostOf(addr string) string {
+	for i, a := range zzAddrs {
+		if a == addr {
+			return zzHosts[i]
+		}
+	}
+	return ""
 }
